@@ -151,6 +151,11 @@ def check(case):
                     continue
                 jnames = out_names(fn, jm, req)
                 scale = max([abs(v) for v in pt["states"].values()] + [0.0])
+                try:  # absolute-error scale: the largest operand met in an addition / Mod / trigonometric function anywhere in the model
+                    ref.evaluate(pt["t"], pt["states"], pt["params"])
+                    scale = max(scale, float(ref.last_maxabs))
+                except Exception:  # noqa: BLE001
+                    pass
                 bad = {n: float(got[jnames[n]]) for n in names if not cm.vclose(got[jnames[n]], want[names[n]], scale)}
                 if bad:
                     add(f"value-mismatch:{group(fn)}", f"jax {fn} ({mode}) differs from the NumPy backend for {sorted(bad)[:3]}", inp, {n: float(want[names[n]]) for n in bad}, bad,
